@@ -92,6 +92,9 @@ type txWithIndex struct {
 // This is necessary if the block is not sorted in topological order.
 func (bf *blockFilterer) checkFilterTx(tx *bchutil.Tx, txIndex int, inputs map[chainhash.Hash][]*txWithIndex) {
 	if bf.filter.MatchTxAndUpdate(tx) {
+		if bf.matchedIndices[txIndex] {
+			return
+		}
 		bf.matchedIndices[txIndex] = true
 		if dependentTxs, ok := inputs[tx.MsgTx().TxHash()]; ok {
 			for _, dependentTx := range dependentTxs {
